@@ -177,13 +177,21 @@ def setCij9 (v : M9 K) [DecidableEq K] : Except String (M6 K) :=
   else if cij9SetSlice ≠ (6, 6) then .error "assert"
   else setCij fun a b => v ⟨a.val, by omega⟩ ⟨b.val, by omega⟩
 
-def checks4 (C : T4 K) (l : List (Idx4 × Idx4)) : Bool :=
-  l.all fun pq => isclose npRtol npAtol (at4 C pq.1) (at4 C pq.2)
+/-- `np.abs(x).max()` of a 3x3x3x3 array. -/
+def absMax4 (C : T4 K) : K := maxList ((T4.toList C).map absK)
+
+/-- the `atol` of the symmetry assertions of a 4-index setter: a literal, or (`rel`) the literal times
+    `max(1.0, np.abs(x).max())`. -/
+def checkAtol (rel : Bool) (a : K) (C : T4 K) : K :=
+  if rel then a * maxK ((1 : Nat) : K) (absMax4 C) else a
+
+def checks4 (atol : K) (C : T4 K) (l : List (Idx4 × Idx4)) : Bool :=
+  l.all fun pq => isclose npRtol atol (at4 C pq.1) (at4 C pq.2)
 
 /-- `Cijkl` setter. -/
 def setCijkl (C : T4 K) : Except String (M6 K) :=
   if cijklSetMaxAssert && !decide (((0 : Nat) : K) < max4 C) then .error "assert"
-  else if !checks4 C cijklSetChecks then .error "assert"
+  else if !checks4 (checkAtol cijklSetAtolRel cijklSetAtol C) C cijklSetChecks then .error "assert"
   else setCij (cijklSetRaw C)
 
 /-- `Sij` setter: `self.Cij = np.linalg.inv(value)`; `inv` is the parameter (`none` = singular). -/
@@ -195,7 +203,7 @@ def setSij (inv : M6 K → Option (M6 K)) (s : M6 K) : Except String (M6 K) :=
 /-- `Sijkl` setter. -/
 def setSijkl (inv : M6 K → Option (M6 K)) (S : T4 K) : Except String (M6 K) :=
   if sijklSetMaxAssert && !decide (((0 : Nat) : K) < max4 S) then .error "assert"
-  else if !checks4 S sijklSetChecks then .error "assert"
+  else if !checks4 (checkAtol sijklSetAtolRel sijklSetAtol S) S sijklSetChecks then .error "assert"
   else setSij inv (sijklSetRaw S)
 
 /-! ### axes_check and transform -/
@@ -255,7 +263,7 @@ def normalizedAs (sys : String) (c s : M6 K) : Except String (M6 K) :=
   else if sys = "tetragonal" then setCij (m6 (normalized_tetragonal c))
   else if sys = "rhombohedral" then setCij (m6 (normalized_rhombohedral c))
   else if sys = "orthorhombic" then setCij (m6 (normalized_orthorhombic c))
-  else if sys = "monoclinic" then .error (if normalized_monoclinic_raises = "ValueError" then "value" else "other")
+  else if sys = "monoclinic" then setCij (m6 (normalized_monoclinic c))
   else .error "value"
 
 /-- `np.allclose(self.Cij, normalized.Cij, atol, rtol)`. -/
@@ -263,6 +271,95 @@ def isNormal (rtol atol : K) (sys : String) (c s : M6 K) : Except String Bool :=
   match normalizedAs sys c s with
   | .error e => .error e
   | .ok n => .ok (idx6.all fun p => isclose rtol atol (c p.1 p.2) (n p.1 p.2))
+
+/-- `bulk(style)` / `shear(style)`; the inverse is needed for 'Reuss' and 'Hill' only (`none`: singular -> `LinAlgError`). -/
+def estimate (inv : M6 K → Option (M6 K)) (which style : String) (c : M6 K) : Except String K :=
+  if which ≠ "bulk" ∧ which ≠ "shear" then .error "op"
+  else if style = "Voigt" then .ok (if which = "bulk" then bulkVoigt c else shearVoigt c)
+  else if style = "Reuss" ∨ style = "Hill" then
+    match inv c with
+    | none => .error "value"
+    | some s0 =>
+      let ts := Tab.of6 s0
+      let s := ts.get6
+      if style = "Reuss" then .ok (if which = "bulk" then bulkReuss s else shearReuss s)
+      else .ok (if which = "bulk" then bulkHill c s else shearHill c s)
+  else .error "value"
+
+/-! ### the object: ONE stored 6x6
+
+An `ElasticConstants` object holds one matrix (`__c_ij`).  Every setter / constructor method either overwrites it
+with a value that depends on its argument only, or raises and leaves it alone; everything else is a function of the
+stored matrix and changes nothing.  `run` executes a sequence of operations on one object (this is what the driver's
+`seq` request does and what the harness compares with the real class, read by read). -/
+
+inductive Op (K : Type) where
+  | putCij (v : M6 K) | putCij9 (v : M9 K) | putCijkl (C : T4 K) | putSij (s : M6 K) | putSijkl (S : T4 K)
+  | putNamed (keys : String) (vals roots : List K)
+  | getCij | getCij9 | getCijkl | getSij | getSijkl
+  | est (which style : String) | norm (sys : String) | isn (sys : String) (rt at' : K)
+  | tr (tol : Option K) (axes : M33 K) (norms : Fin 3 → K)
+
+variable [DecidableEq K]
+
+/-- what a setter would store (`none`: the operation is a read). Independent of the current state. -/
+def Op.store? (inv : M6 K → Option (M6 K)) : Op K → Option (Except String (M6 K))
+  | .putCij v => some (setCij v)
+  | .putCij9 v => some (setCij9 v)
+  | .putCijkl C => some (setCijkl C)
+  | .putSij s => some (setSij inv s)
+  | .putSijkl S => some (setSijkl inv S)
+  | .putNamed keys vals roots => some (match construct keys vals roots with
+      | none => .error "op"
+      | some r => r)
+  | _ => none
+
+/-- the value a read returns on the stored matrix `c`. -/
+def Op.read (inv : M6 K → Option (M6 K)) (c : M6 K) : Op K → Except String (List K)
+  | .getCij => .ok (M6.toList c)
+  | .getCij9 => .ok (M9.toList (cij9Get c))
+  | .getCijkl => .ok (T4.toList (cijklGet c))
+  | .getSij => match inv c with
+    | none => .error "value"
+    | some s => .ok (M6.toList s)
+  | .getSijkl => match inv c with
+    | none => .error "value"
+    | some s => let ts := Tab.of6 s; .ok (T4.toList (sijklGet ts.get6))
+  | .est which style => match estimate inv which style c with
+    | .ok x => .ok [x]
+    | .error e => .error e
+  | .norm sys =>
+    if sys = "isotropic" then
+      match inv c with
+      | none => .error "value"
+      | some s => let ts := Tab.of6 s; (normalizedAs sys c ts.get6).map M6.toList
+    else (normalizedAs sys c c).map M6.toList
+  | .isn sys rt at' =>
+    let s? := if sys = "isotropic" then inv c else some c
+    match s? with
+    | none => .error "value"
+    | some s => let ts := Tab.of6 s; match isNormal rt at' sys c ts.get6 with
+      | .ok b => .ok [if b then ((1 : Nat) : K) else ((0 : Nat) : K)]
+      | .error e => .error e
+  | .tr tol axes norms => (transform (tol.getD transformTol) axes norms c).map M6.toList
+  | _ => .ok []
+
+/-- one operation on the object holding `st`: new stored matrix and what the caller observes. -/
+def step (inv : M6 K → Option (M6 K)) (st : M6 K) (op : Op K) : M6 K × Except String (List K) :=
+  match op.store? inv with
+  | some (.ok z) => (z, .ok [])
+  | some (.error e) => (st, .error e)
+  | none => (st, op.read inv st)
+
+/-- the observations of a sequence of operations on one object that initially holds `st`. -/
+def run (inv : M6 K → Option (M6 K)) : M6 K → List (Op K) → List (Except String (List K))
+  | _, [] => []
+  | st, op :: rest => let r := step inv st op; r.2 :: run inv r.1 rest
+
+/-- the stored matrix after a sequence of operations. -/
+def finalState (inv : M6 K → Option (M6 K)) : M6 K → List (Op K) → M6 K
+  | st, [] => st
+  | st, op :: rest => finalState inv (step inv st op).1 rest
 
 end model
 end Atomman.C11
